@@ -152,6 +152,18 @@ CLAIMED = {
         design="§4 C16", technique="Coq proof (inductive invariants, safety forms) + real-time probes on the compiled queue",
         note=PROOF_NOTE + "  Liveness/fairness (a woken waiter eventually runs) is tested by the probes, not proved.  Observation: finite timeouts within ~292 years of "
              "duration::max() in nanoseconds still wrap (c16_near_max_finite_timeout_wraps); the property speaks only of the default timeout."),
+    "C13": dict(
+        text="Machine-checked proof (Coq), for every source/destination callsign over the alphabet (empty destination = broadcast), CAN 0..15, every "
+             "audio sample list of any length (incl. 0 and a partial last frame), any Codec2 oracle and any content of uninitialised storage: m17-mod's "
+             "bitstream output (mirror ImplMod.v) is byte-for-byte the specification encoder's stream (SpecM17.v, written from the spec): preamble, LSF, "
+             "frames numbered k mod 2^15 with LICH k mod 6 and the Codec2 payloads in order (partial frame zero-padded, since fix cd22b9b), EOS on the last, "
+             "EOT marker, 10 zero bytes; the frame-number wrap is proved, not excluded.  Baseband (exact arithmetic): the output equals the truncation "
+             "of 7168 x the continuous RRC shaping of the whole symbol stream incl. the EOT block (since fix 86e19cf the model flag regenerated from the "
+             "source selects the positive theorem) and always fits int16.  Tie: the real binary run as a process (bitstream byte-exact, baseband +-1 LSB) "
+             "with Codec2 bytes from libcodec2, the functions driven in-process, constants regenerated.",
+        design="§4 C13", technique="Coq proof (pipeline = spec encoder; fold over the sample stream; exact-arithmetic FIR) + process-level and in-process differential",
+        note=PROOF_NOTE + "  libcodec2 is an arbitrary function (Section variable); the double rounding of the FIR is compared within +-1 LSB, not verified; the "
+             "never-ending BERT mode is checked frame by frame only."),
 }
 
 NOT_YET = {}
